@@ -153,6 +153,7 @@ def build_targets(targets, timeout=1500, jobs=NPROC):
 
 def build_model():
     ensure_makefile()
+    os.makedirs(os.path.join(OCAML, "gen"), exist_ok=True)       # Extract.v writes there (the directory is not tracked)
     rc, out, _ = sh(f"make -j{NPROC} theories/Extract.vo", 900, cwd=COQ)
     if rc != 0:
         return False, out[-4000:]
